@@ -103,5 +103,17 @@ PLANS['C14'] = Plan(
                  'SegmentChainer.chain precondition: every non-empty segment has at least one aligned pair and EmptyAlignmentSegment has no positions (established by the segment factory, C13)'],
 )
 
+PLANS['C15'] = Plan(
+    'C15', [], 'other',
+    "BOUNDED (run-time contract monitor on the real AlignmentSegmentConflictResolver.resolveConflicts and on every "
+    "checkForConflicts(...).resolveConflict() it performs): every resulting segment is a contiguous sub-run (element identity) of one input segment "
+    "with score = sum of what is left; pairs outside the overlap are kept; no two resulting segments share a label or cross. Inputs are produced by the real "
+    "engine, scorer and segment factory from generated label data with 2-6 nearby seed peaks, both strands, four maxDistance values. The last clause is "
+    "genuinely violated by the pinned code in two ways that are recorded as known findings, each pinned to its mechanism (K1 pair never compared, K2 equal-index "
+    "cut on unequal label lists) and replayed from a minimal witness on every run; any other failure of that clause is a violation.",
+    bounded=_lazy('bcheck.c15', 'bounded'), replay=_lazy('bcheck.c15', 'replay'),
+    technique='bounded run-time contract monitor on the real functions (deductive part: see functions_under_contract)',
+)
+
 NOT_APPLICABLE = {}
 FIX_COMMITS = ['a1f5353', '24a396c']
